@@ -239,10 +239,20 @@ def run_replayer_chunks(exe, lines, wd, tag, nchunks=NPROC, timeout=900, env=Non
                 break
             err = p.stderr.decode(errors="replace")
             marks = re.findall(r"^@(-?\d+)$", err, re.M)
-            if not marks:
-                crashes.append({"id": None, "rc": p.returncode, "stderr": err[-2000:]})
-                break
-            last = int(marks[-1])
+            if marks:
+                last = int(marks[-1])
+            else:
+                # died without announcing (e.g. corrupted stack): output is flushed per program, so the
+                # first program of this round without an observation is the one that was running
+                last = None
+                for l in todo:
+                    pid_ = int(l.split()[1])
+                    if pid_ not in obs:
+                        last = pid_
+                        break
+                if last is None:
+                    crashes.append({"id": None, "rc": p.returncode, "stderr": err[-2000:]})
+                    break
             msg = "\n".join(l for l in err.splitlines() if not l.startswith("@"))[-1500:]
             crashes.append({"id": last, "rc": p.returncode, "stderr": msg})
             # drop everything up to and including the crashing program
